@@ -50,6 +50,14 @@ uint32_t inet_pton(uint32_t af, char* src, char* dst) {
 }
 #endif
 
+/* std::_Hash_bytes (libstdc++.so): any deterministic function of the bytes; rotate-xor here (hash quality is nobody's claim, and
+ * multiplications would make 'equal bytes => equal hash' a hard equivalence query) */
+uint64_t _ZSt11_Hash_bytesPKvmm(char* p, uint64_t n, uint64_t seed) {
+  uint64_t h = seed ^ 1469598103934665603ULL;
+  for (uint64_t i = 0; i < n; ++i) { h = ((h << 5) | (h >> 59)) ^ (uint8_t)p[i]; }
+  return h;
+}
+
 /* ---- things that must not be reached ---- */
 void _ZSt9terminatev(void) { __CPROVER_assert(0, "std::terminate reached"); __CPROVER_assume(0); }
 void _ZSt20__throw_length_errorPKc(char* m) { (void)m; __CPROVER_assert(0, "std::length_error thrown"); __CPROVER_assume(0); }
